@@ -33,7 +33,8 @@ RULE = ('Generated client generations: each opens 1-3 transports and runs a '
         'afterwards. Non-trivial: an unfinished binary packet at transport '
         'end, or a raising handler, or an unanswered callback.')
 ASSUMPTIONS = [
-    'single-host managers',
+    'single-host managers, and a message-queue manager on the host that owns '
+    'every client of the history (a silent channel)',
     'the object-graph walk does not descend into modules, classes, '
     'functions, code, logging or harness objects',
     'bookkeeping containers named in the property anchors (environ, '
@@ -137,6 +138,9 @@ def strategy(tier):
         # the application's disconnect handler closes the client's personal
         # room itself
         'disc_closes_own': st.sampled_from([False, False, True]),
+        # the client manager: the default one, or a message-queue manager on
+        # the host that owns all the clients
+        'manager': st.sampled_from(['plain', 'plain', 'queue']),
         'ntrans': st.integers(1, 3),
         'fault': fault,
         'ops': st.lists(op, min_size=3, max_size=14 if tier == 'quick'
@@ -144,9 +148,33 @@ def strategy(tier):
         'ends': st.lists(st.integers(0, 3), min_size=3, max_size=3)})
 
 
+KF_QUEUE_CB = 'queue-manager-keeps-callback-of-departed-client'
+
+
 def _mk_world(case):
+    extra = {}
+    if case.get('manager') == 'queue':
+        from .. import core
+        socketio = core.bootstrap()
+        from socketio.async_pubsub_manager import AsyncPubSubManager
+        from socketio.pubsub_manager import PubSubManager
+        base = AsyncPubSubManager if case['aio'] else PubSubManager
+        plain = socketio.AsyncManager if case['aio'] else socketio.Manager
+
+        class QuietQueueManager(base):
+            """The host that owns every client of the history; nothing else
+            is on its channel."""
+            def initialize(self):
+                plain.initialize(self)
+            if case['aio']:
+                async def _publish(self, data):
+                    pass
+            else:
+                def _publish(self, data):
+                    pass
+        extra['client_manager'] = QuietQueueManager()
     w = World(aio=case['aio'], async_handlers=case['async_handlers'],
-              always_connect=case.get('always_connect', False))
+              always_connect=case.get('always_connect', False), **extra)
     sio = w.sio
     st_ = {'counts': {}, 'fault': case['fault']}
 
@@ -356,7 +384,9 @@ def _generation(case, w, st_):
             w.h.settle()
             continue
         if k == 'group_cb_death':
-            if not case['aio']:
+            if not case['aio'] or case.get('manager') == 'queue':
+                # (a queue manager files a group callback under the room's
+                # name: unsupported use, nothing to judge)
                 continue
             peers = [i for i in lv if i != ci and
                      w.clients[i]['ns'] == c['ns'] and
@@ -452,7 +482,7 @@ def _generation(case, w, st_):
     return flags
 
 
-def _check_empty(w, what):
+def _check_empty(w, what, tolerate_queue_callbacks=False):
     sio = w.sio
     m = sio.manager
     ns_left = list(m.get_namespaces())
@@ -481,6 +511,10 @@ def _check_empty(w, what):
             'eio.sockets': sio.eio.sockets}
     for name, v in cont.items():
         if len(v):
+            if name == 'manager.callbacks' and tolerate_queue_callbacks:
+                raise Violation(KF_QUEUE_CB, '%s: an emit with callback to '
+                                'a client that had already gone left %r'
+                                % (what, list(v.items())[:2]))
             raise Violation('container-not-empty:' + name,
                             '%s: %r' % (what, list(v.items())[:3]))
 
@@ -493,7 +527,15 @@ def check_case(case):
         flags = _generation(case, w, st_)       # warm-up
         if 'partial_binary' in flags and KF_BINARY in KNOWN:
             labels['kf:' + KF_BINARY] = True
-        _check_empty(w, 'after generation 1')
+        queue_late = case.get('manager') == 'queue' and \
+            'late_emit_cb' in flags
+        try:
+            _check_empty(w, 'after generation 1', queue_late)
+        except Violation as v:
+            if v.kind == KF_QUEUE_CB and KF_QUEUE_CB in KNOWN:
+                labels['kf:' + KF_QUEUE_CB] = True
+                return labels
+            raise
         s0 = graphsize.size(w.sio)
         for _ in range(n):
             _generation(case, w, st_)
